@@ -6,7 +6,8 @@ Import ListNotations.
 
 Section S.
 Variable nt : natives.
-Notation den := (den nt).
+Variable call : query -> venv -> jv -> result.
+Notation den := (den1 nt call).
 
 Lemma emptycode_den : forall q, emptycode q = true -> forall rho v, den q rho v = ([v], None).
 Proof.
@@ -28,9 +29,7 @@ Qed.
 
 Lemma acl_sound : forall q cs, acl q = Some cs -> forall rho v, den q rho v = (cs, None).
 Proof.
-  induction q as [ | c | a b IHa IHb | a b IHa IHb | | t IHt | t k IHt | c a b IHc IHa IHb | a b IHa IHb
-                 | a h IHa IHh | q IHq | s x i u IHs IHi IHu | s x i u e IHs IHi IHu IHe | l b IHb | l
-                 | s x b IHs IHb | x | f | o a b ] using query_ind';
+  qind q;
     intros cs Hc rho v; simpl in Hc; try discriminate.
   - inversion Hc; subst. reflexivity.
   - (* pipe *) destruct (emptycode a) eqn:E1.
@@ -59,12 +58,20 @@ Ltac len_contra' Hc :=
 
 (* the code of a binary operator has at least 4 instructions *)
 Ltac binop_contra Hc :=
-  match type of Hc with context [if Nat.ltb ?c ?s then _ else _] => destruct (Nat.ltb c s); [|discriminate] end;
+  match type of Hc with context [if (Nat.ltb ?c ?s && ?r) then _ else _] => destruct (Nat.ltb c s && r); [|discriminate] end;
   match type of Hc with context [comp ?b ?ce ?c ?p ?n ?s] =>
     destruct (comp b ce c p n s) as [[[? ?] ?]|]; [|discriminate] end; cbv iota beta in Hc;
   match type of Hc with context [comp ?a ?ce ?c ?p ?n ?s] =>
     destruct (comp a ce c p n s) as [[[? ?] ?]|]; [|discriminate] end; cbv iota beta in Hc;
   len_contra' Hc.
+
+Ltac def_contra Hc :=
+  match type of Hc with context [match ?ps with [] => _ | _ :: _ => _ end] => destruct ps; [|discriminate] end;
+  match type of Hc with context [if (Nat.ltb ?c ?s && ?r) then _ else _] => destruct (Nat.ltb c s && r); [|discriminate] end;
+  dcomp; len_contra' Hc.
+Ltac callf_inv Hc :=
+  match type of Hc with context [match ?args with [] => _ | _ :: _ => _ end] => destruct args; [|discriminate] end;
+  match type of Hc with context [lookup_cf ?f ?l] => destruct (lookup_cf f l) eqn:?; [|discriminate] end.
 
 Lemma comp_nil : forall q ce cur pc nv sn nv' sn', comp q ce cur pc nv sn = Some ([], nv', sn') -> emptycode q = true /\ nv' = nv /\ sn' = sn.
 Proof.
@@ -78,6 +85,8 @@ Proof.
   - (* foreach *) destruct e; simpl in *; dcomp; len_contra' Hc.
   - (* bind *) destruct l; len_contra' Hc.
   - (* binop *) binop_contra Hc.
+  - (* def *) def_contra Hc.
+  - (* callf *) callf_inv Hc. discriminate.
 Qed.
 
 Lemma app_single : forall (a b : list instr) x, a ++ b = [x] -> (a = [] /\ b = [x]) \/ (a = [x] /\ b = []).
@@ -104,11 +113,24 @@ Proof.
   - (* foreach *) destruct e; simpl in *; dcomp; len_contra' Hc.
   - (* bind *) destruct l; len_contra' Hc.
   - (* binop *) binop_contra Hc.
+  - (* def *) def_contra Hc.
+  - (* callf *) callf_inv Hc. discriminate.
+Qed.
+
+Lemma bind_list_ext' : forall r (f g : jv -> result), (forall w, f w = g w) -> bind r f = bind r g.
+Proof. intros r f g H. unfold bind. rewrite (bind_list_ext f g (fst r) H). reflexivity. Qed.
+Lemma bind_unit : forall r, bind r (fun w => ([w], None)) = r.
+Proof. intros [ws x]. unfold bind. rewrite bind_list_id. reflexivity. Qed.
+Lemma den_pipe_l : forall a b, emptycode a = true -> forall rho v, den (QPipe a b) rho v = den b rho v.
+Proof. intros a b E rho v. simpl. rewrite (emptycode_den _ E), bind_single. reflexivity. Qed.
+Lemma den_pipe_r : forall a b, emptycode b = true -> forall rho v, den (QPipe a b) rho v = den a rho v.
+Proof.
+  intros a b E rho v. simpl. rewrite (bind_list_ext' (den a rho v) _ (fun w => ([w], None))); [apply bind_unit|]. intros w. apply (emptycode_den _ E).
 Qed.
 
 (* queries compiled to a single instruction that allocates no variable (the arguments compileCallInternal
    inlines as  load v; X) *)
-Definition den1 (x : instr) (v : jv) : result :=
+Definition den_instr (x : instr) (v : jv) : result :=
   match x with
   | Iconst c => ([c], None)
   | Iindex k => of_sum (n_index nt v k)
@@ -120,28 +142,35 @@ Definition den1 (x : instr) (v : jv) : result :=
 Definition is_single (x : instr) : bool :=
   match x with Iconst _ | Iindex _ | Iiter | Ibacktrack | Icall (NF0 _) => true | _ => false end.
 
-Lemma comp_single : forall q ce cur pc nv sn x sn', comp q ce cur pc nv sn = Some ([x], nv, sn') ->
-  is_single x = true /\ forall rho v, den q rho v = den1 x v.
+(* a query compiled to one instruction that allocates no variable is a native generator on the input, or a call
+   of a user-defined function *)
+Definition single_sem (q : query) (ce : cenv) (x : instr) : Prop :=
+  (is_single x = true /\ forall rho v, den q rho v = den_instr x v) \/
+  (exists f p, x = Icallf p /\ lookup_cf f (ce_env ce) = Some p /\ forall rho v, den q rho v = den (QCallF f []) rho v).
+
+Lemma comp_single : forall q ce cur pc nv sn x sn', comp q ce cur pc nv sn = Some ([x], nv, sn') -> single_sem q ce x.
 Proof.
   qind q; intros ce cur pc nv sn x0 sn' Hc; simpl in Hc; dcomp;
     try (len_contra' Hc).
-  - (* const *) inversion Hc; subst. split; auto.
+  - (* const *) inversion Hc; subst. left. split; auto.
   - (* pipe *) injection Hc as H1 H2 H3. subst.
     destruct (comp_mono _ _ _ _ _ _ _ _ _ Ec) as [Ma _]. destruct (comp_mono _ _ _ _ _ _ _ _ _ Ec0) as [Mb _].
     assert (n = nv) by lia. subst n.
     destruct (app_single _ _ _ H1) as [[-> ->]|[-> ->]].
-    + destruct (comp_nil _ _ _ _ _ _ _ _ Ec) as [E1 _]. destruct (IHb _ _ _ _ _ _ _ Ec0) as [Hs Hd]. split; auto.
-      intros rho v. simpl. rewrite (emptycode_den _ E1), bind_single. auto.
-    + destruct (comp_nil _ _ _ _ _ _ _ _ Ec0) as [E2 _]. destruct (IHa _ _ _ _ _ _ _ Ec) as [Hs Hd]. split; auto.
-      intros rho v. simpl. rewrite Hd. unfold bind.
-      rewrite (bind_list_ext _ (fun w => ([w], None))), bind_list_id; [destruct (den1 x0 v); reflexivity|].
-      intros w. apply (emptycode_den _ E2).
-  - (* empty *) inversion Hc; subst. split; auto.
+    + destruct (comp_nil _ _ _ _ _ _ _ _ Ec) as [E1 _].
+      destruct (IHb _ _ _ _ _ _ _ Ec0) as [[Hs Hd]|(f & p & -> & Hl & Hd)].
+      * left. split; auto. intros rho v. rewrite (den_pipe_l _ _ E1). auto.
+      * right. exists f, p. split; [auto|]. split; [auto|]. intros rho v. rewrite (den_pipe_l _ _ E1). auto.
+    + destruct (comp_nil _ _ _ _ _ _ _ _ Ec0) as [E2 _].
+      destruct (IHa _ _ _ _ _ _ _ Ec) as [[Hs Hd]|(f & p & -> & Hl & Hd)].
+      * left. split; auto. intros rho v. rewrite (den_pipe_r _ _ E2). auto.
+      * right. exists f, p. split; [auto|]. split; [auto|]. intros rho v. rewrite (den_pipe_r _ _ E2). auto.
+  - (* empty *) inversion Hc; subst. left. split; auto.
   - (* iter *) injection Hc as H1 H2 H3. subst. destruct (app_single _ _ _ H1) as [[-> H]|[_ H]]; [|discriminate].
-    inversion H; subst. destruct (comp_nil _ _ _ _ _ _ _ _ Ec) as [E1 _]. split; auto.
+    inversion H; subst. destruct (comp_nil _ _ _ _ _ _ _ _ Ec) as [E1 _]. left. split; auto.
     intros rho v. simpl. rewrite (emptycode_den _ E1), bind_single. reflexivity.
   - (* index *) injection Hc as H1 H2 H3. subst. destruct (app_single _ _ _ H1) as [[-> H]|[_ H]]; [|discriminate].
-    inversion H; subst. destruct (comp_nil _ _ _ _ _ _ _ _ Ec) as [E1 _]. split; auto.
+    inversion H; subst. destruct (comp_nil _ _ _ _ _ _ _ _ Ec) as [E1 _]. left. split; auto.
     intros rho v. simpl. rewrite (emptycode_den _ E1), bind_single. reflexivity.
   - (* if *) destruct (is_const1 l0), (is_const1 l1); destruct l; len_contra' Hc.
   - (* try *) destruct h; simpl in *; dcomp; len_contra' Hc.
@@ -150,8 +179,10 @@ Proof.
   - (* foreach *) destruct e; simpl in *; dcomp; len_contra' Hc.
   - (* label *) injection Hc as H1 H2 H3. destruct (comp_mono _ _ _ _ _ _ _ _ _ Ec) as [M _]. lia.
   - (* bind *) destruct l; len_contra' Hc.
-  - (* call0 *) inversion Hc; subst. split; auto.
+  - (* call0 *) inversion Hc; subst. left. split; auto.
   - (* binop *) binop_contra Hc.
+  - (* def *) def_contra Hc.
+  - (* callf *) callf_inv Hc. inversion Hc; subst. right. exists f, n. auto.
 Qed.
 
 (* the code of an argument of an internal function (compileCallInternal / compileFuncDef) *)
@@ -165,20 +196,36 @@ Definition arg_code (v : var) (p sn : nat) (cb : list instr) (nvc : nat) : list 
   end.
 
 Lemma comp_binop_inv : forall o a b ce cur pc nv sn cq nv' sn', comp (QBinop o a b) ce cur pc nv sn = Some (cq, nv', sn') ->
-  cur < sn /\ exists cb nb s1 ca na,
+  cur < sn /\ ce_lt ce sn = true /\ exists cb nb s1 ca na,
     comp b ce sn (S pc + 2) 0 (S sn) = Some (cb, nb, s1) /\
     comp a ce s1 (S pc + length (arg_code (cur, nv) (S pc) sn cb nb) + 2) 0 (S s1) = Some (ca, na, sn') /\
     cq = Istore (cur, nv) :: arg_code (cur, nv) (S pc) sn cb nb ++
            arg_code (cur, nv) (S pc + length (arg_code (cur, nv) (S pc) sn cb nb)) s1 ca na ++ [Iload (cur, nv); Icall (NF2 o)] /\
     nv' = S nv.
 Proof.
-  intros o a b ce cur pc nv sn cq nv' sn' Hc. unfold arg_code. cbn -[Nat.add Nat.ltb Nat.eqb] in Hc |- *.
+  intros o a b ce cur pc nv sn cq nv' sn' Hc. unfold arg_code. cbn -[Nat.add Nat.ltb Nat.eqb ce_lt] in Hc |- *.
   destruct (Nat.ltb_spec cur sn) as [Hlt|]; [|discriminate]. split; [exact Hlt|].
+  destruct (ce_lt ce sn) eqn:Hce; [|discriminate]. split; [reflexivity|]. cbn [andb] in Hc.
   destruct (comp b ce sn (S pc + 2) 0 (S sn)) as [[[cb nb] s1]|] eqn:Eb; [|discriminate]. cbv iota beta in Hc.
   match type of Hc with context [comp a ?ce0 ?c0 ?p0 ?n0 ?s0] =>
     destruct (comp a ce0 c0 p0 n0 s0) as [[[ca na] s2]|] eqn:Ea; [|discriminate] end.
   cbv iota beta in Hc. inversion Hc; subst. exists cb, nb, s1, ca, na.
   split; [reflexivity|]. split; [exact Ea|]. split; reflexivity.
+Qed.
+
+Lemma comp_def_inv : forall f body rest ce cur pc nv sn cq nv' sn',
+  comp (QDef f [] body rest) ce cur pc nv sn = Some (cq, nv', sn') ->
+  cur < sn /\ ce_lt ce sn = true /\ exists cb nvb s1 cr,
+    comp body (fun_env (add_fun ce f (S pc))) sn (pc + 2) 0 (S sn) = Some (cb, nvb, s1) /\
+    comp rest (add_fun ce f (S pc)) cur (pc + 2 + length cb + 1) nv s1 = Some (cr, nv', sn') /\
+    cq = Ijump (pc + 2 + length cb + 1) :: Iscope sn nvb 0 :: cb ++ Iret :: cr.
+Proof.
+  intros f body rest ce cur pc nv sn cq nv' sn' Hc. cbn -[Nat.add Nat.ltb ce_lt] in Hc.
+  destruct (Nat.ltb_spec cur sn) as [Hlt|]; [|discriminate]. split; [exact Hlt|].
+  destruct (ce_lt ce sn) eqn:Hce; [|discriminate]. split; [reflexivity|]. cbn [andb] in Hc.
+  destruct (comp body (fun_env (add_fun ce f (S pc))) sn (pc + 2) 0 (S sn)) as [[[cb nvb] s1]|] eqn:Eb; [|discriminate].
+  destruct (comp rest (add_fun ce f (S pc)) cur (pc + 2 + length cb + 1) nv s1) as [[[cr nv2] s2]|] eqn:Er; [|discriminate].
+  inversion Hc; subst. exists cb, nvb, s1, cr. auto.
 Qed.
 
 End S.
